@@ -1,4 +1,4 @@
-mod ctx; mod model; mod rng; mod util; mod props; mod chartable; mod render; mod gen; mod corpus; mod wf;
+mod ctx; mod model; mod rng; mod util; mod props; mod chartable; mod render; mod gen; mod corpus; mod wf; mod recipe_sexp;
 use ctx::{Ctx, Known};
 
 fn load_known(path: &str) -> Vec<Known> {
@@ -33,6 +33,9 @@ fn main() {
         "C17" => props::c17::run(&mut ctx),
         "C18" => props::c18::run(&mut ctx),
         "C13" => props::c13::run(&mut ctx),
+        "C15" => props::c15::run(&mut ctx),
+        #[cfg(feature = "ffi")]
+        "C19" => props::c19::run(&mut ctx),
         _ => { eprintln!("unknown property {prop}"); std::process::exit(2); }
     }
     ctx.finish(out);
